@@ -237,3 +237,35 @@ def h_merge(i0: int, i1: int, i2: int, pa: int, pb: int, na: int, nb: int, pol_p
         return False
     except RuntimeError:
         return True
+
+
+# ------------------------------------------------------------------ import / delete / re-import across the two stores
+def _mk_import(seq):
+    def h_import(c0: int, c1: int, v0: int, v1: int) -> bool:
+        """
+        post: R(_)
+        """
+        begin()
+        C0, C1, V0, V1 = tok(c0), tok(c1), tok(v0), tok(v1)
+        first = [{'NodeID': 'n0', 'Class': C0, 'P': V0}, {'NodeID': 'n1', 'Class': C1}]
+        second = [{'NodeID': 'n0', 'Class': C1, 'P': V1}, {'NodeID': 'z9', 'Class': C0}, {'NodeID': 'z8', 'Class': C0}]
+        outs = []
+        for dj in (False, True):
+            imp = importer(dj)
+            imp.storage.add_graph('g1', raw_graph(first, [(0, 1, {'Class': 'r'})], key_base=3))
+            for op in seq:
+                if op == 'delete':
+                    imp.delete_graph(graph_id='g1')
+                elif op == 'reimport':
+                    imp.storage.add_graph('g1', raw_graph(second, [(0, 1, {'Class': 'r'}), (1, 2, {'Class': 'r'})], key_base=3))
+                elif op == 'add_node':
+                    pg(imp, 'g1', dj).add_node(node_id='fresh', label=C0, props={'P': V1})
+            outs.append(content(imp, 'g1'))
+        return outs[0] == outs[1]
+    return h_import
+
+
+for _seq in (('delete', 'reimport'), ('delete', 'reimport', 'add_node'), ('reimport',), ('reimport', 'add_node')):
+    add("stores_agree/" + "+".join(_seq), _mk_import(list(_seq)), timeout=300, encodes=ENC, finding="reimport_skip" if _seq[0] == 'reimport' else None,
+        bounds="graph g1 imported into the shared store and into the per-graph store, then %s; the resulting content of g1 must be the same in both "
+               "stores (classes/values opaque tokens)" % " then ".join(_seq))
